@@ -177,6 +177,9 @@ def rolesRoles : Roles → List Json
   | .cons r t rest => Json.arr #[(r.name : Json), ((Tgt.doc t).version : Json)] :: (tgtRoles t ++ rolesRoles rest)
 end
 
+def limits (st : St) : List Nat :=
+  (st.log.reverse.filterMap fun e => match e with | .limit n => some n | _ => none)
+
 def slotJson {α} (ver : α → Nat) : Slot α → Json
   | .absent => Json.null
   | .garbage => "garbage"
@@ -188,7 +191,8 @@ def dsJson (ds : Datastore) : Json :=
 
 /-- what one cycle of the model shows, in the vocabulary of the harness observation -/
 def cycleObs (r : Except Err View) (st : St) : Json :=
-  let common : List (String × Json) := [("reqs", Json.arr ((reqs st).map Json.str).toArray), ("ds", dsJson st.ds)]
+  let common : List (String × Json) := [("reqs", Json.arr ((reqs st).map Json.str).toArray),
+    ("limits", natArr (limits st)), ("ds", dsJson st.ds)]
   match r with
   | .ok v => Json.mkObj ([("res", Json.str "ok"),
       ("versions", Json.arr #[(v.root.version : Json), (v.ts.version : Json), (v.snap.version : Json), ((Tgt.doc v.tgt).version : Json)]),
